@@ -90,6 +90,8 @@ def main(rest):
             jobs = int(rest[rest.index("j") + 1])
         items = []
         idx = json.load(open(os.path.join(core.VERIF, "mutants", "index.json")))
+        if "seeded-only" in rest:
+            idx = []
         for m in idx:
             items.append(("mutants/" + m["id"], os.path.join(core.VERIF, "mutants", m["id"] + ".diff"), m["property"],
                           {"property": m["property"], "kind": m["kind"], "tests": m["baseline_tests"]}))
@@ -109,7 +111,8 @@ def main(rest):
                 out[key] = dict(info, rc=v[0], violations=v[1])
                 print(f"{key}: rc={v[0]} violations={v[1]}", flush=True)
                 ordered = {k: out[k] for k, _, _, _ in items if k in out}
-                json.dump(ordered, open(os.path.join(core.VERIF, "selftest_results.json"), "w"), indent=1)
+                json.dump(ordered, open(os.environ.get("SELFTEST_OUT") or os.path.join(core.VERIF, "selftest_results.json"), "w"),
+                          indent=1)
 
         with ThreadPoolExecutor(max_workers=jobs) as ex:
             list(ex.map(one, items))
